@@ -16,6 +16,7 @@ import (
 )
 
 type Clause struct {
+	Index ast.Expr // for indexed ghost assignments g[Index] = Expr
 	Label string
 	Src   string
 	Expr  ast.Expr
@@ -663,10 +664,20 @@ func (cs *ContractSet) LoadFile(file string) error {
 					if err != nil {
 						return err
 					}
+					lhs := strings.TrimSpace(as[:e])
+					if b := strings.Index(lhs, "["); b > 0 && strings.HasSuffix(lhs, "]") {
+						// g[i] = e  is  g = store(g, i, e)
+						ic, err := parseClause(lhs[b+1:len(lhs)-1], where)
+						if err != nil {
+							return err
+						}
+						c.Index = ic.Expr
+						lhs = lhs[:b]
+					}
 					oc.Assigns = append(oc.Assigns, struct {
 						Name string
 						Expr Clause
-					}{strings.TrimSpace(as[:e]), c})
+					}{lhs, c})
 				}
 				cur.OnCalls = append(cur.OnCalls, oc)
 			default:
@@ -763,6 +774,12 @@ func specSort(t string) Sort {
 	}
 	if strings.HasPrefix(t, "(Array") {
 		return Sort(t)
+	}
+	if strings.HasPrefix(t, "map[") {
+		// ghost maps: map[int]int, map[int]bool, ...
+		if k := strings.Index(t, "]"); k > 0 {
+			return ArraySort(specSort(t[4:k]), specSort(t[k+1:]))
+		}
 	}
 	return SInt
 }
